@@ -15,7 +15,13 @@ use vcommon::{
 };
 use zlink_core::{varlink_service, Call, Connection, Reply};
 
-pub const RULE: &str = "lanes: (call-decode) call objects built from 9 method templates (adjacently \
+pub const RULE: &str = "A generated corpus of error enums (0..5 variants; unit and struct variants of 1..4 fields over \
+integers, bool, float, String, &str, Option, Vec, map and a nested struct; #[zlink(rename)] on fields, raw-identifier fields, \
+field names such as `error` / `parameters` / `method`; interface names with dashes and digits) is compiled with the \
+ReplyError derive and, for two values per variant: encoded by serde_json and by zlink's send_error, decoded from 4..8 \
+spellings (either member order, fields reversed, None as null or omitted, unknown members inside `parameters` and at top \
+level, absent / null / {} parameters for field-less variants) and received through receive_reply. Then: \
+lanes: (call-decode) call objects built from 9 method templates (adjacently \
 tagged enum with unit / struct variants and borrowed / owned fields, strict struct, a catch-all \
 type that records every member it is shown, the library's org.varlink.service method type with \
 parameters absent / null / {} for GetInfo) x all 8 flag sets x explicit `false` for unset flags x \
@@ -906,7 +912,13 @@ pub fn run(ctx: &Ctx) -> i32 {
     });
     stats.merge(s7);
     viol.extend(v7);
+    // generated corpus of ReplyError derives, compiled against /repo
+    if let Err(code) = crate::c05gen::run_corpus(ctx, &mut stats, &mut viol) {
+        eprintln!("C05: the generated corpus of error enums could not be built or run (inconclusive)");
+        return code;
+    }
     Report::new(RULE)
+        .assume("derive corpus: the expected wire name is <interface>.<variant identifier>, parameter names are the #[zlink(rename)] value or the field identifier without r#, values come from a fixed literal table per field type; programs are generated from the seed, not shrunk - the reported unit is one enum with its source")
         .assume("decoding is always from JSON text (serde_json::from_str / the receive path), as on the wire; the reference decode of a user-defined method type is that type's own Deserialize applied to the object without the flag members")
         .assume("expected encodings of the error enums are written by hand next to each value; for Option fields of error variants both null and omission are accepted on encode (the statement does not fix it)")
         .extra("call_texts_enumerated", json!(texts.len()))
@@ -917,6 +929,10 @@ pub fn replay(lane: &str, case: Value) -> CaseResult {
     let mut stats = Stats::default();
     let bad = |e: serde_json::Error| Fail::new("bad-replay", e.to_string());
     match lane {
+        "derive-corpus" => {
+            println!("{}", case["enum"].as_str().unwrap_or(""));
+            Err(Fail::new("bad-replay", format!("a corpus case (key {}) is replayed by re-running the check with the same seed: the enum above has to be compiled", case["key"])))
+        }
         "call-decode" => {
             let ct: CallText = serde_json::from_value(case).map_err(bad)?;
             println!("text: {}", ct.text());
